@@ -179,6 +179,11 @@ def gen_archive(rng, tier):
             ops.append({"op": "precreate", "s": rng.choice(["a", "b"]), "skew_us": rng.choice([0, 3600 * 1000000])})
         else:
             ops.append({"op": "close"})
+    if rng.random() < 0.04:
+        # a burst: many short-lived writers for the same path inside one second (each one rotates the previous file)
+        ops = []
+        for _ in range(rng.choice([70, 130])):
+            ops += [{"op": "write", "s": "a"}, {"op": "restart"}]
     ops.append({"op": "close"})
     return {"sub": "archive", "kind": kind, "ops": ops, "pool": POOL, "name": rng.choice(["records", "x"]), "buffer_size": rng.choice([64, 8192])}
 
